@@ -35,7 +35,7 @@ ASSUMPTIONS = [
     "LMDB backend over /verif/shim; SQL = SQLite",
 ]
 MIN_NONTRIVIAL = {"quick": 100, "thorough": 1000}
-REQUIRED_COUNTERS = ["clause.must_go", "clause.must_stay", "clause.orphans", "clause.ephemeral_live", "clause.passes_on_busy_pool", "clause.passes_after_fault"]
+REQUIRED_COUNTERS = ["clause.must_go", "clause.must_stay", "clause.orphans", "clause.ephemeral_live", "clause.passes_on_busy_pool", "clause.passes_after_fault", "clause.mass_due"]
 SHARD_TIMEOUT = {"quick": 500, "thorough": 3000}
 NOW = gen.T0
 PASSES = [10 ** 9 - 1, 10 ** 9, NOW, 2 ** 31 - 1]
@@ -245,6 +245,57 @@ async def run_store(backend, events, passes, counters):
     return viols, nontrivial
 
 
+async def run_mass_expiry(backend, counters, seed):
+    """more than a thousand events are due at one pass: ONE pass removes them all (and their index entries)"""
+    rig = R.Rig(backend=backend, config={"analysis_delay": 0})
+    await rig.start()
+    viols, nontrivial = [], []
+    clause = counters.setdefault("clause", {})
+    try:
+        if backend == "sql":
+            from nostr_relay.storage import db as mod
+
+            gc_ = mod.QueryGarbageCollector(rig.storage)
+        else:
+            from nostr_relay.storage import kv as mod
+
+            gc_ = mod.KVGarbageCollector(rig.storage)
+        clock = hist.Clock(NOW).install(mod)
+        key = ref.key_from_seed("c17-mass")
+        n = 1000 + (seed % 3) * 150 + 50
+        due = [ref.make_event(key, kind=1, created_at=NOW - 5000 + i, tags=[["expiration", str(NOW - 1 - (i % 7))], ["t", "mass"]], content="due %d %d" % (seed, i)) for i in range(n)]
+        keep = [ref.make_event(key, kind=1, created_at=NOW - 9000 + i, tags=[["expiration", str(NOW + 1000)], ["t", "mass"]], content="keep %d %d" % (seed, i)) for i in range(10)]
+        conn = rig.connect("mass")
+        for e in due + keep:
+            conn.feed(["EVENT", e])
+        await conn.processed(timeout=300)
+        await rig.quiesce(timeout=300)
+        before = dump.stored_events(dump.dump(rig))
+        clock.now = NOW
+        await gc_.run_once()
+        await rig.quiesce(timeout=300)
+        d = dump.dump(rig)
+        after = dump.stored_events(d)
+        stored_due = [e for e in due if e["id"] in before]
+        clause["mass_due"] = clause.get("mass_due", 0) + len(stored_due)
+        counters["passes"] = counters.get("passes", 0) + 1
+        nontrivial.append(h([backend, "mass", n]))
+        rp = {"backend": backend, "mode": "mass", "seed": seed}
+        left = [e for e in stored_due if e["id"] in after]
+        if left:
+            viols.append({"key": "%s/survived/expired/more-than-1000-due" % backend, "msg": "[%s] %d expired events were due at one pass; %d of them are still stored afterwards" % (backend, len(stored_due), len(left)), "replay": rp})
+        if any(e["id"] not in after for e in keep if e["id"] in before):
+            viols.append({"key": "%s/removed/mass" % backend, "msg": "[%s] the pass removed events that are not due" % backend, "replay": rp})
+        if backend == "lmdb" and not left:
+            exp, problems = dump.expected_lmdb_keys(d["events"])
+            extra = {k for k in d["keys"] if k != b"\xee"} - exp
+            if extra:
+                viols.append({"key": "lmdb/orphan-index-keys", "msg": "[lmdb] %d index keys without record after the mass pass" % len(extra), "replay": rp})
+    finally:
+        await rig.close()
+    return viols, nontrivial
+
+
 async def run_periodic(backend, counters, seed):
     """
     The REAL periodic collector (start(), its own timer) with one pass that fails (database locked / reader
@@ -369,6 +420,10 @@ def run_shard(spec):
     v2, nt2 = R.run(run_periodic, spec["backend"], counters, spec["case_seed"])
     viols.extend(v2)
     nontrivial.extend(nt2)
+    if spec["case_seed"] % 4 == 0:
+        v3, nt3 = R.run(run_mass_expiry, spec["backend"], counters, spec["case_seed"])
+        viols.extend(v3)
+        nontrivial.extend(nt3)
     seen, out = {}, []
     for v in viols:
         seen[v["key"]] = seen.get(v["key"], 0) + 1
@@ -383,6 +438,9 @@ def run_shard(spec):
 
 def replay(rp, spec):
     counters = {}
+    if rp.get("mode") == "mass":
+        v, nt = R.run(run_mass_expiry, rp["backend"], counters, rp["seed"])
+        return {"evaluations": 1, "nontrivial": nt, "counters": counters, "violations": v, "samples": [], "inconclusive": []}
     if rp.get("mode") == "periodic":
         v, nt = R.run(run_periodic, rp["backend"], counters, rp["seed"])
         return {"evaluations": 1, "nontrivial": nt, "counters": counters, "violations": v, "samples": [], "inconclusive": []}
